@@ -452,6 +452,29 @@ pub fn family(kind: &str, n: usize) -> Option<Vec<u8>> {
                 }
             }
         }
+        // one attribute with n values first, then n attributes with one value each (what one attribute needed must
+        // not be provisioned for every later one)
+        "widethenmany" => {
+            tok(&mut b, 0x21, b"w", &[0, 0, 0, 0]);
+            for i in 0..n {
+                tok(&mut b, 0x21, b"", &(i as u32).to_be_bytes());
+            }
+            for i in 0..n {
+                tok(&mut b, 0x21, format!("a{}", i).as_bytes(), &[0, 0, 0, 1]);
+            }
+        }
+        // n groups, each opening a collection it never closes (malformed): what is left open must not be walked again
+        // at every later delimiter
+        "opengroups" => {
+            for i in 0..n {
+                if i > 0 {
+                    b.push([1u8, 2, 4, 5][i % 4]);
+                }
+                tok(&mut b, 0x34, b"c", b"");
+                tok(&mut b, 0x4a, b"", b"m");
+                tok(&mut b, 0x21, b"", &[0, 0, 0, 1]);
+            }
+        }
         // one long value first, then n small additional values (whatever was read earlier must not tax later reads)
         "longfirst" => {
             tok(&mut b, 0x41, b"t", &vec![0x61u8; 60000]);
@@ -483,5 +506,5 @@ pub fn family(kind: &str, n: usize) -> Option<Vec<u8>> {
 
 pub const FAMILIES: &[(&str, usize)] = &[
     ("depth", 16), ("width", 9), ("attrs", 11), ("dupattrs", 10), ("groups", 1), ("members", 15),
-    ("unclosed", 5), ("ends", 5), ("bigvalues", 1), ("collset", 21), ("deepsets", 25), ("badnames", 1), ("badtext", 1), ("longfirst", 9),
+    ("unclosed", 5), ("ends", 5), ("bigvalues", 1), ("collset", 21), ("deepsets", 25), ("badnames", 1), ("badtext", 1), ("longfirst", 9), ("widethenmany", 20), ("opengroups", 23),
 ];
